@@ -29,12 +29,14 @@ import (
 )
 
 var accBlockPool = []string{"10.0.0.0/8", "172.16.0.0/12", "192.168.0.0/16", "203.0.113.7", "0.0.0.0/0",
-	"2001:db8::/32", "10.1.2.0/24", "::/0", "198.51.100.0/25", "fe80::/10"}
+	"2001:db8::/32", "10.1.2.0/24", "::/0", "198.51.100.0/25", "fe80::/10", "::ffff:10.0.0.0/104", "2001:DB8::/48"}
 
 // addresses as they appear in RemoteAddr / X-Forwarded-For (canonical spellings; "bogus" does not parse; the zone
 // of a link-local address is ignored by fabio)
 var accAddrPool = []string{"10.1.2.3", "10.200.0.1", "172.16.5.5", "172.32.0.1", "192.168.1.1", "203.0.113.7",
-	"198.51.100.9", "2001:db8::1", "2001:db9::1", "198.51.100.200", "bogus", "fe80::1%eth0"}
+	"198.51.100.9", "2001:db8::1", "2001:db9::1", "198.51.100.200", "bogus", "fe80::1%eth0",
+	// other spellings of addresses above (upper case, IPv4-mapped), the empty string
+	"2001:DB8::1", "::ffff:10.1.2.3", "", "2001:db8:1::1"}
 
 type accNum struct {
 	Bits int             `json:"bits"` // 32 / 128; 0 = does not parse
@@ -64,7 +66,10 @@ func accBlockNum(s string) accNum {
 	if err != nil {
 		return accNum{Val: json.RawMessage("0")}
 	}
-	ones, _ := n.Mask.Size()
+	ones, size := n.Mask.Size()
+	if n.IP.To4() != nil && size == 128 && ones >= 96 {
+		ones -= 96 // an IPv4-mapped block: net.IPNet.Contains compares the 4-byte forms
+	}
 	return accNumOfIP(n.IP, ones)
 }
 
@@ -184,6 +189,26 @@ type accIn struct {
 type accAns struct {
 	Code      int `json:"code"`
 	AloneCode int `json:"alone_code"`
+	// the other entry points of the gate, asked about the remote address alone: Target.AccessDeniedTCP (TCP / SNI
+	// proxies, on a connection) and Target.AccessDeniedAddr (gRPC), on the shared target and on a fresh one
+	TCPDenied   bool `json:"tcp_denied"`
+	AddrDenied  bool `json:"addr_denied"`
+	AloneDenied bool `json:"alone_denied"`
+}
+
+type fakeConn struct {
+	net.Conn
+	ra net.Addr
+}
+
+func (c fakeConn) RemoteAddr() net.Addr { return c.ra }
+
+func (q accReq) tcpAddr() net.Addr {
+	a := accAddrPool[q.Remote]
+	if i := strings.IndexByte(a, '%'); i >= 0 {
+		a = a[:i]
+	}
+	return &net.TCPAddr{IP: net.ParseIP(a), Port: 4567} // IP == nil for text that does not parse
 }
 
 func accGenRules(r *hx.Rand) accRules {
@@ -243,17 +268,18 @@ func accRun(raw json.RawMessage) (interface{}, error) {
 		return nil, err
 	}
 	def := `route add acc /acc https://to.example/ok opts "redirect=301 ` + opts + `"`
-	mk := func() (http.Handler, error) {
+	mk := func() (http.Handler, *route.Target, error) {
 		t, err := route.VerifNewTable(def)
 		if err != nil {
-			return nil, err
+			return nil, nil, err
 		}
-		if len(t) == 0 {
-			return nil, errors.New("route was not added")
+		rt := route.VerifC06Route(t, "", "/acc")
+		if rt == nil || len(rt.Targets) != 1 {
+			return nil, nil, errors.New("route was not added")
 		}
-		return newProxy(func() route.Table { return t }, route.NewGlobCache(4), true), nil
+		return newProxy(func() route.Table { return t }, route.NewGlobCache(4), true), rt.Targets[0], nil
 	}
-	shared, err := mk()
+	shared, sharedTarget, err := mk()
 	if err != nil {
 		return nil, err
 	}
@@ -266,13 +292,16 @@ func accRun(raw json.RawMessage) (interface{}, error) {
 		rec := httptest.NewRecorder()
 		shared.ServeHTTP(rec, q.build("acc.example", "/acc"))
 		a.Code = rec.Code
-		alone, err := mk()
+		a.TCPDenied = sharedTarget.AccessDeniedTCP(fakeConn{ra: q.tcpAddr()})
+		a.AddrDenied = sharedTarget.AccessDeniedAddr(q.tcpAddr())
+		alone, aloneTarget, err := mk()
 		if err != nil {
 			return nil, err
 		}
 		rec = httptest.NewRecorder()
 		alone.ServeHTTP(rec, q.build("acc.example", "/acc"))
 		a.AloneCode = rec.Code
+		a.AloneDenied = aloneTarget.AccessDeniedAddr(q.tcpAddr())
 		out = append(out, a)
 	}
 	return map[string]interface{}{"pools": accPools(), "answers": out}, nil
